@@ -152,16 +152,19 @@ def load(repo: Repo) -> dict | None:
     digest = repo.digest(rels)
     CACHE.mkdir(exist_ok=True)
     path = CACHE / f"types-{digest}.json"
+    scratch = bool(os.environ.get("SA_REPO"))  # a self-test variant: never touch the shared cache (runs in parallel)
     if path.exists() and not repo.overlay:
         try:
             return json.loads(path.read_text())
         except Exception:  # noqa: BLE001
             pass
     data = build(repo)
-    if data is not None and not repo.overlay:
+    if data is not None and not repo.overlay and not scratch:
         for old in CACHE.glob("types-*.json"):
-            old.unlink()
-        path.write_text(json.dumps(data))
+            old.unlink(missing_ok=True)
+        tmp = path.with_suffix(f".{os.getpid()}.tmp")
+        tmp.write_text(json.dumps(data))
+        os.replace(tmp, path)
     return data
 
 
